@@ -26,7 +26,7 @@ WS = [' ', '\n', '\n\n', ' \n\t', '\r\n', '   ']
 
 
 def member_text(m, n, rnd):
-    lines = [ANN[k] % ('p%d' % n if k == 'id' else n) for k in m['ann']]
+    lines = [ANN[k] % ((m.get('idval') or 'p%d' % n) if k == 'id' else n) for k in m['ann']]
     sep = rnd.choice(WS)
     return sep.join(lines + [POOL[m['p'] - 1]])
 
@@ -70,6 +70,12 @@ def run(replay=None):
     for p in range(1, 8):
         files.append([{'p': p, 'ann': ['id', 'title']}, {'p': p, 'ann': ['description', 'id']}])
         files.append([{'p': p, 'ann': ['id']}, {'p': p, 'ann': []}, {'p': p, 'ann': ['title']}])
+    same_id = []
+    for a in range(1, 8):
+        b = a % 7 + 1
+        same_id.append([{'p': a, 'ann': ['id', 'title'], 'idval': 'shared'}, {'p': b, 'ann': ['id'], 'idval': 'shared'}])
+        same_id.append([{'p': a, 'ann': ['id'], 'idval': 'shared'}, {'p': b, 'ann': []}, {'p': a, 'ann': ['description', 'id'], 'idval': 'shared'}])
+    files += same_id
     files.append([])
     rep.count('files', len(files))
     events, info = [], {}
